@@ -64,11 +64,12 @@ theorem finish_branch (c : Cfg) (ar aq : Nat) (s : S) (r : Reason) (b : Base c a
     rw [this]
     exact tail_down c ar aq h hb e_cl hd (fun hf => by
       subst hh; simp [sendHijack, orFlag, hup, hpd, how] at hf)
-  · have : peTail c h true = ({ h with direct := false, rs := none }, some .UpFilter) := by
+  · have e_held : rsHeld h = false := by subst hh; simpa [rsHeld, sendHijack, orFlag] using hcu.2.1
+    have : peTail c h true = ({ h with direct := false, rs := none }, some .UpFilter) := by
       unfold peTail
       rw [if_neg hd, if_pos e_dir]
       simp only []
-      rw [if_neg (by simp [how]), if_pos (by rw [e_ph]; exact hphase)]
+      rw [if_neg (by simp [how]), if_pos (by rw [e_ph]; exact hphase), rsReset_retries_of_not_held c h e_held]
     rw [this]
     show Inv c ar aq (reenter { h with direct := false, rs := none } .UpFilter)
     apply tail_direct c ar aq h hb e_run e_cl how
